@@ -462,27 +462,41 @@ class QsSim:
             def __init__(fs, *a, **kw):
                 grh = kw.get("get_request_handler")
                 if grh is not None:
-                    # the Handler class Main.run built; __call__/shutdown only stamp, then delegate
-                    class Stamped(grh):
-                        def __call__(self, req):
-                            sim._on_exec(self.client[0], req)
-                            return super().__call__(req)
+                    # whatever Main.run passes as the handler factory (a class, a partial, a function):
+                    # the handler it makes is used through a proxy that stamps calls and the teardown,
+                    # then delegates - the handler object itself is untouched
+                    class StampedHandler:
+                        def __init__(self, real, sock):
+                            self.__dict__["_real"] = real
+                            self.__dict__["_sock"] = sock
 
-                        def shutdown(self):
-                            sim._on_shutdown(self.client[0])
+                        def __call__(self, req):
+                            sim._on_exec(self._sock, req)
+                            return self._real(req)
+
+                        def shutdown(self, *sa, **skw):
+                            sim._on_shutdown(self._sock)
                             sim._lot = []
                             try:
-                                super().shutdown()
+                                return self._real.shutdown(*sa, **skw)
                             finally:
                                 lot, sim._lot = sim._lot, None
                                 fn = getattr(sim.observer, "on_shutdown_done", None)
                                 if fn is not None and lot and not sim.stopping:
-                                    sim._notify(fn, self.client[0].name, lot)
+                                    sim._notify(fn, self._sock.name, lot)
 
-                    def make_handler(**hkw):
-                        h = Stamped(**hkw)
-                        sim.handlers[hkw["client"][0].name] = h
-                        return h
+                        def __getattr__(self, name):
+                            return getattr(self._real, name)
+
+                        def __setattr__(self, name, value):
+                            setattr(self._real, name, value)
+
+                    def make_handler(*ha, **hkw):
+                        h = grh(*ha, **hkw)
+                        client = hkw.get("client") or (ha[0] if ha else None)
+                        sock = client[0] if isinstance(client, (tuple, list)) else client
+                        sim.handlers[sock.name] = h
+                        return StampedHandler(h, sock)
 
                     kw["get_request_handler"] = make_handler
                 with _stream_server_patched(FakeStreamServer):
